@@ -963,8 +963,16 @@ func c02HandoffStep(r *h.Result, rng *h.Rng, protos []string, n int, fixed []*c0
 
 // ---------------------------------------------------------------- handoff-handler
 
+// handler cases that ended without an answer in this run: after two of them the stream has given its verdict and the
+// remaining cases are skipped (each would cost its deadline again)
+var c02hNoAnswer int
+
 func c02hRunHandler(r *h.Result, c *c02hCase) {
 	c.Stream = "handoff-handler"
+	if c02hNoAnswer >= 2 {
+		r.Count("handoff-handler:skipped-after-two-unanswered-pushes")
+		return
+	}
 	body, ctype, exp := c02hBuild(c)
 	tables := c02hTables[c.Proto]
 	delays := map[string][]time.Duration{}
@@ -991,11 +999,20 @@ func c02hRunHandler(r *h.Result, c *c02hCase) {
 		handler(w, req)
 		done <- w.Code
 	}()
-	code := -1
-	select {
-	case code = <-done:
-	case <-time.After(90 * time.Second):
+	var allSubs []*service.InsertServiceV2
+	for _, t := range tables {
+		ss, as := rig.svcs[t].VerifSubServices()
+		allSubs = append(append(allSubs, ss...), as...)
 	}
+	code, _, quiescent := c0102AwaitAnswer(done, 90*time.Second, allSubs, func() int {
+		n := 0
+		for _, t := range tables {
+			rig.envs[t].mu.Lock()
+			n += rig.envs[t].n
+			rig.envs[t].mu.Unlock()
+		}
+		return n
+	})
 	// doPush goroutines of other chunks may still be retrying after an error answer: let them finish
 	quiet := 0
 	last := -1
@@ -1028,7 +1045,10 @@ func c02hRunHandler(r *h.Result, c *c02hCase) {
 		c02hJudge(r, "handoff-handler/"+c.Proto, t, blocks, exp[t], acked, replay)
 	}
 	if code < 0 {
-		r.Violate("C01/no-answer/multi-chunk", fmt.Sprintf("handoff-handler: %s push of %d groups got no answer within 90 s", c.Proto, len(c.Groups)), replay)
+		c02hNoAnswer++
+		r.Violate("C01/no-answer/multi-chunk", fmt.Sprintf("handoff-handler: %s push of %d groups got no answer: %s", c.Proto, len(c.Groups),
+			map[bool]string{true: "the handler still waits although every insert service is idle (nothing queued, no INSERT in flight, no INSERT made for 2 s): nothing is left that could complete the promise it waits for",
+				false: "none within 90 s"}[quiescent]), replay)
 	}
 	r.Case(fmt.Sprintf("handoff-handler:%s:%d:%v:%v", c.Proto, c.Base, c.Scripts, c.DelaysMs), nFail > 0 && acked)
 	r.Count(fmt.Sprintf("handoff-handler:%s:status=%d", c.Proto, code))
